@@ -292,143 +292,142 @@ def addr_oracle(addr, colbits, bankbits, align, bank_byte_alignment=0, data_widt
     return bank, row, colbus
 
 
-class OrdinalMonitor(Module):
-    """End-to-end command/data matching for one symbolic marked command (port PSEL, ordinal NSEL).
+class TrackMonitor(Module):
+    """End-to-end command/data matching for one marked command, tracked by queue position (no ordinals).
 
-    The NSEL-th command accepted on port PSEL (address A*, direction W*) is the K*-th command accepted for
-    its bank (counting all ports).  Requirements:
-      * the K*-th CAS issued on the DFI for that bank has direction W*, column = column(A*), and the row open
-        in that bank (reconstructed from DFI ACTs) is row(A*);
-      * no bank ever sees more CAS commands than accepted requests;
-      * the J*-th write-data strobe (read-data beat) of port PSEL -- J* = number of earlier accepted
-        writes (reads) on that port -- occurs exactly write_latency (read_latency) cycles after that CAS is
-        on the DFI; no port ever gets more strobes than it has accepted commands of that direction;
+    A free input `mark` chooses which accepted command of port PSEL (symbolic constant) is followed.  At
+    acceptance the monitor records how many requests are outstanding for its bank (accepted, CAS not yet on the
+    DFI) and how many data strobes of its direction are outstanding on its port; both are counted down.
+      * the CAS that finds the bank-queue position at zero is the marked command's: it must have its direction
+        and column, and the row open in that bank (reconstructed from DFI ACT/PRE) must be its row;
+      * no bank ever sees a CAS with no outstanding request; no port a strobe with no outstanding command;
+      * the strobe that finds the port position at zero must fall exactly write_latency / read_latency cycles
+        after that CAS is on the DFI (so the DFI data phases carry this command's data), and conversely;
       * in a write strobe cycle the DFI write data/mask of all phases carry that port's wdata / ~we; in a read
-        beat cycle the port sees the concatenated DFI read data.
+        beat cycle the port sees the concatenated DFI read data; never two ports strobed at once.
     """
-    def __init__(self, ports, dfi, mon, colbits, bankbits, align, write_latency, read_latency, cw=6,
+    def __init__(self, ports, dfi, mon, colbits, bankbits, align, write_latency, read_latency, cw=4,
                  bank_byte_alignment=0):
         np_ = len(ports)
         nb = 2**bankbits
         dw = len(ports[0].wdata.data)
         self.psel = Signal(max=max(np_, 2), name_override="PSEL")
-        self.nsel = Signal(cw, name_override="NSEL")
+        self.mark = Signal(name_override="mark")
         bads = self.bads = {}
-        covers = self.covers = {}
+        MAXC = 2**cw - 1
 
         def bad(name):
             s = Signal(name_override="bad_" + name)
             bads[name] = s
             return s
-
-        def sat_inc(x):
-            return Mux(x == 2**cw - 1, x, x + 1)
-        cnt = [Signal(cw) for _ in ports]
-        cntw = [Signal(cw) for _ in ports]
-        cntr = [Signal(cw) for _ in ports]
-        strw = [Signal(cw) for _ in ports]
-        strr = [Signal(cw) for _ in ports]
-        acc = [Signal(cw) for _ in range(nb)]
-        casn = [Signal(cw) for _ in range(nb)]
+        outst = [Signal(cw) for _ in range(nb)]          # accepted requests whose CAS is not yet on the DFI
+        pendw = [Signal(cw) for _ in ports]              # accepted writes without strobe yet
+        pendr = [Signal(cw) for _ in ports]
         marked = Signal()
-        mA = Signal(len(ports[0].cmd.addr))
+        cas_done = Signal()
+        str_done = Signal()
         mW = Signal()
-        mK = Signal(cw)
-        mJ = Signal(cw)
         mB = Signal(max=max(nb, 2))
         mRow = Signal(len(mon.row[0][0]))
         mCol = Signal(len(dfi.phases[0].address))
-        overflow = Signal()   # any counter saturated: claims are only made for ordinals below saturation
+        ahead_b = Signal(cw)
+        ahead_p = Signal(cw)
         self.marked = marked
-
         accept = [p.cmd.valid & p.cmd.ready for p in ports]
         orc = [addr_oracle(p.cmd.addr, colbits, bankbits, align, bank_byte_alignment, dw) for p in ports]
-        # per-bank acceptance this cycle
-        acc_now = []
+        # DFI CAS per bank this cycle (the multiplexer issues at most one CAS per cycle)
+        cas_b = []
+        for b in range(nb):
+            c = Signal()
+            self.comb += c.eq(any_([(d["rd"] | d["wr"]) & (d["bank"] == b) for d in mon.dec]))
+            cas_b.append(c)
+        ncas = reduce(lambda x, y: x + y, [(d["rd"] | d["wr"]) for d in mon.dec])
+        v_two_cas = bad("more_than_one_cas_in_a_cycle")
+        self.comb += v_two_cas.eq(ncas > 1)
+        acc_b = []
         for b in range(nb):
             hits = [accept[i] & (orc[i][0] == b) for i in range(np_)]
             n = Signal(max=np_ + 1)
             self.comb += n.eq(reduce(lambda x, y: x + y, hits))
-            acc_now.append(n)
-            self.sync += acc[b].eq(Mux(acc[b] + n >= 2**cw - 1, 2**cw - 1, acc[b] + n))
+            acc_b.append(n)
+            self.sync += outst[b].eq(outst[b] + n - cas_b[b])
         v_two = bad("two_ports_accepted_for_one_bank_in_one_cycle")
-        self.comb += v_two.eq(any_([n > 1 for n in acc_now]))
+        self.comb += v_two.eq(any_([n > 1 for n in acc_b]))
+        v_cas_wo = bad("cas_without_outstanding_request")
+        self.comb += v_cas_wo.eq(any_([cas_b[b] & (outst[b] == 0) for b in range(nb)]))
+        v_ovf = bad("monitor_counter_overflow_more_outstanding_than_queues_hold")
+        self.comb += v_ovf.eq(any_([x >= MAXC - 1 for x in outst + pendw + pendr]))
+        # marking
         mark_now = Signal()
         for i, p in enumerate(ports):
-            self.sync += [If(accept[i], cnt[i].eq(sat_inc(cnt[i])),
-                             If(p.cmd.we, cntw[i].eq(sat_inc(cntw[i]))).Else(cntr[i].eq(sat_inc(cntr[i]))))]
             hit = Signal()
-            self.comb += hit.eq(accept[i] & (self.psel == i) & (cnt[i] == self.nsel) & ~marked)
+            self.comb += hit.eq(accept[i] & (self.psel == i) & self.mark & ~marked)
+            b_i = orc[i][0]
             self.sync += If(hit,
-                            marked.eq(1), mA.eq(p.cmd.addr), mW.eq(p.cmd.we), mB.eq(orc[i][0]),
-                            mK.eq(Array(acc)[orc[i][0]]), mJ.eq(Mux(p.cmd.we, cntw[i], cntr[i])),
+                            marked.eq(1), mW.eq(p.cmd.we), mB.eq(b_i),
+                            # position behind the requests already outstanding (a CAS in this very cycle serves one of them)
+                            ahead_b.eq(Array(outst)[b_i] - Array(cas_b)[b_i]),
+                            ahead_p.eq(Mux(p.cmd.we, pendw[i] - p.wdata.ready, pendr[i] - p.rdata.valid)),
                             mRow.eq(orc[i][1]), mCol.eq(orc[i][2]))
             self.comb += If(hit, mark_now.eq(1))
-        # DFI side
+        # marked CAS
+        my_cas = Signal()
+        self.comb += my_cas.eq(marked & ~cas_done & Array(cas_b)[mB] & (ahead_b == 0))
+        self.sync += [If(marked & ~cas_done & Array(cas_b)[mB], If(ahead_b == 0, cas_done.eq(1)).Else(ahead_b.eq(ahead_b - 1)))]
         v_cas_mismatch = bad("marked_cas_wrong_direction_column_or_row")
-        v_cas_wo_req = bad("cas_without_accepted_request")
-        mism, woreq = [], []
-        marked_cas_now = Signal()
-        cas_inc = [[] for _ in range(nb)]
+        mism = []
+        colmask = (2**len(dfi.phases[0].address) - 1) & ~(1 << 10)
         for pi, d in enumerate(mon.dec):
             for b in range(nb):
-                c = Signal()
-                self.comb += c.eq((d["rd"] | d["wr"]) & (d["bank"] == b))
-                cas_inc[b].append(c)
-                # at most one CAS per cycle is issued by the multiplexer; counts before this cycle are used
-                woreq.append(c & (casn[b] >= acc[b]))
-                ism = Signal()
-                self.comb += ism.eq(c & marked & (mB == b) & (casn[b] == mK))
-                colmask = (2**len(d["ph"].address) - 1) & ~(1 << 10)
-                mism.append(ism & ((d["wr"] != mW) | ((d["ph"].address & colmask) != (mCol & colmask)) |
-                                   (mon.row_at[pi][0][b] != mRow) | ~mon.open_at[pi][0][b]))
-                self.comb += If(ism, marked_cas_now.eq(1))
-        for b in range(nb):
-            n = reduce(lambda x, y: x + y, cas_inc[b])
-            self.sync += casn[b].eq(Mux(casn[b] + n >= 2**cw - 1, 2**cw - 1, casn[b] + n))
-        self.comb += [v_cas_mismatch.eq(any_(mism)), v_cas_wo_req.eq(any_(woreq))]
+                this = (d["rd"] | d["wr"]) & (d["bank"] == b) & (mB == b)
+                mism.append(my_cas & this & ((d["wr"] != mW) | ((d["ph"].address & colmask) != (mCol & colmask)) |
+                                             (mon.row_at[pi][0][b] != mRow) | ~mon.open_at[pi][0][b]))
+        self.comb += v_cas_mismatch.eq(any_(mism))
         # expected strobe time
         maxlat = max(write_latency, read_latency, 1)
         pend = Signal()
         wait = Signal(max=maxlat + 1)
         exp_now = Signal()
         lat = Mux(mW, write_latency, read_latency)
-        self.comb += exp_now.eq((marked_cas_now & (lat == 0)) | (pend & (wait == 0)))
+        self.comb += exp_now.eq((my_cas & (lat == 0)) | (pend & (wait == 0)))
         self.sync += [
-            If(marked_cas_now & (lat != 0), pend.eq(1), wait.eq(lat - 1)
+            If(my_cas & (lat != 0), pend.eq(1), wait.eq(lat - 1)
             ).Elif(pend & (wait != 0), wait.eq(wait - 1)
             ).Elif(pend, pend.eq(0))]
         v_str_mis = bad("marked_data_strobe_not_aligned_with_its_dfi_data_phase")
-        v_str_wo = bad("data_strobe_without_command")
+        v_str_wo = bad("data_strobe_without_outstanding_command")
         v_route_w = bad("write_data_or_mask_on_dfi_differs_from_strobed_port")
         v_route_r = bad("read_data_at_port_differs_from_dfi")
         v_multi = bad("two_ports_strobed_in_one_cycle")
         wo, rw, rr = [], [], []
-        marked_strobe = Signal()
+        my_strobe = Signal()
         all_wr = Cat(*[ph.wrdata for ph in dfi.phases])
         all_mask = Cat(*[ph.wrdata_mask for ph in dfi.phases])
         all_rd = Cat(*[ph.rddata for ph in dfi.phases])
         for i, p in enumerate(ports):
             ws, rs = p.wdata.ready, p.rdata.valid
-            self.sync += [If(ws, strw[i].eq(sat_inc(strw[i]))), If(rs, strr[i].eq(sat_inc(strr[i])))]
-            wo += [ws & (strw[i] >= cntw[i]), rs & (strr[i] >= cntr[i])]
+            aw = accept[i] & p.cmd.we
+            ar = accept[i] & (p.cmd.we == 0)
+            self.sync += [pendw[i].eq(pendw[i] + aw - ws), pendr[i].eq(pendr[i] + ar - rs)]
+            wo += [ws & (pendw[i] == 0), rs & (pendr[i] == 0)]
             rw.append(ws & ((all_wr != p.wdata.data) | (all_mask != (~p.wdata.we & (2**len(p.wdata.we) - 1)))))
             rr.append(rs & (p.rdata.data != all_rd))
-            self.comb += If(marked & (self.psel == i) & ((ws & mW & (strw[i] == mJ)) | (rs & ~mW & (strr[i] == mJ))),
-                            marked_strobe.eq(1))
+            mine = Signal()
+            self.comb += mine.eq(marked & ~str_done & (self.psel == i) & ((ws & mW) | (rs & (mW == 0))))
+            self.comb += If(mine & (ahead_p == 0), my_strobe.eq(1))
+            self.sync += If(mine, If(ahead_p == 0, str_done.eq(1)).Else(ahead_p.eq(ahead_p - 1)))
         nstr = reduce(lambda x, y: x + y, [p.wdata.ready for p in ports])
         nstr_r = reduce(lambda x, y: x + y, [p.rdata.valid for p in ports])
         self.comb += [
-            v_str_mis.eq(marked_strobe != exp_now), v_str_wo.eq(any_(wo)),
+            v_str_mis.eq(my_strobe != exp_now), v_str_wo.eq(any_(wo)),
             v_route_w.eq(any_(rw)), v_route_r.eq(any_(rr)),
             v_multi.eq((nstr > 1) | (nstr_r > 1)),
         ]
-        sat = [x == 2**cw - 1 for x in cnt + acc + casn]
-        self.comb += overflow.eq(any_(sat))
-        self.no_overflow = Signal()
-        self.comb += self.no_overflow.eq(~overflow)
         # witnesses
         self.cov_marked_write_done = Signal()
         self.cov_marked_read_done = Signal()
-        self.comb += [self.cov_marked_write_done.eq(marked_strobe & mW & (self.nsel >= 2)),
-                      self.cov_marked_read_done.eq(marked_strobe & ~mW & (self.nsel >= 2))]
+        self.cov_marked_queued_behind_two = Signal()
+        self.comb += [self.cov_marked_write_done.eq(my_strobe & mW), self.cov_marked_read_done.eq(my_strobe & (mW == 0))]
+        deep = Signal()
+        self.sync += If(mark_now & ((Array(outst)[Array([o[0] for o in orc])[self.psel]]) >= 2), deep.eq(1))
+        self.comb += self.cov_marked_queued_behind_two.eq(my_strobe & deep)
